@@ -9,9 +9,9 @@
    `pr` = the token sequence; `desugar` = the tree the documentation prescribes;
    `parse` (Syntax/Parser.v) = the model of numbat's parser on a token list. *)
 From Coq Require Import List NArith ZArith Bool.
-From NV Require Import Syntax.Token Syntax.Ast Syntax.Parser Syntax.Grammar
+From NV Require Import Syntax.Token Syntax.Ast Syntax.StmtAst Syntax.Parser Syntax.Grammar
      Syntax.ParserProofs Syntax.GrammarProofs Syntax.OpTableCheck Syntax.LexTable Syntax.FuelProofs
-     Syntax.SoundProofs Gen.OpTable.
+     Syntax.SoundProofs Syntax.SoundSeq Syntax.TypeGrammar Syntax.TypeProofs Syntax.StmtGrammar Syntax.StmtProofs Syntax.Lexer Syntax.LexNumber Syntax.LexIdent Gen.OpTable.
 Import ListNotations.
 
 (* Every well-formed derivation tree, of any size and nesting depth, is read back as exactly
@@ -35,6 +35,90 @@ Print Assumptions C10_precedence.
 Theorem C10_roundtrip_stmt : forall s : sst, wf_stmt s = true -> parse (pr_stmt s) = Ok [desugar_stmt s] [].
 Proof. exact roundtrip_stmt. Qed.
 Print Assumptions C10_roundtrip_stmt.
+
+(* Type annotations and dimension expressions (Syntax/TypeGrammar.v): `sty` = derivation trees of the
+   documented grammar (dimension identifiers with optional type arguments, `1`, parentheses, `^` with
+   a signed / parenthesised / rational exponent, unicode exponents, `*` and `/` left-associative,
+   Bool, String, DateTime, Fn[(…) -> …], List<…>), `wf_ty` = operands at the level the grammar requires
+   and exponents that evaluate without overflow or division by zero.  Every well-formed tree, of any
+   size and nesting depth, followed by anything that cannot continue a dimension expression, is read back
+   by Parser::type_annotation as the type it denotes; dimension expressions likewise. *)
+Theorem C10_roundtrip_type : forall (t : sty) (rest : list token),
+  wf_ty t = true -> tfollow rest = true -> type_annotation (pr_ty t ++ rest) = Ok (ty_ann t) rest.
+Proof. exact type_annotation_ok. Qed.
+Print Assumptions C10_roundtrip_type.
+
+Theorem C10_roundtrip_dexpr : forall (t : sty) (rest : list token),
+  wf_ty t = true -> 1 <= ylvl t -> tfollow rest = true ->
+  dimension_expression (pr_ty t ++ rest) = Ok (ty_exp t) rest.
+Proof. exact dimension_expression_ok. Qed.
+Print Assumptions C10_roundtrip_dexpr.
+
+(* Definitions (Syntax/StmtGrammar.v): `let` with optional annotation and decorators; `fn` with type
+   parameters (with or without the Dim bound), typed and untyped parameters, optional return
+   annotation, optional body with where / and clauses, decorators; `dimension` with any number of
+   `= dexpr` alternatives; `unit` base or derived with optional dimension annotation and decorators;
+   `use a::b::c`; `struct` with type parameters and fields.  Every decorator of the documentation
+   (metric_prefixes, binary_prefixes, abbreviation, aliases with the four accepts annotations, url,
+   name, description, example with one or two strings) on its own line.  wf_def = the documented side
+   conditions (no example on let / unit, no prefixed alias on let, no alias on fn, no reserved name).
+   Every well-formed definition parses to the statement it denotes. *)
+Theorem C10_roundtrip_def : forall s : sdef, wf_def s = true -> parse (pr_def s) = Ok [desugar_def s] [].
+Proof. exact roundtrip_def. Qed.
+Print Assumptions C10_roundtrip_def.
+
+(* Programs: any number of statements and definitions, separated by `;` or a line break and any
+   number of blank lines, with blank lines before and after, parse to the list of their meanings. *)
+Theorem C10_roundtrip_program : forall lead i more trail,
+  wf_item i = true -> wf_more more = true ->
+  parse (pr_prog lead i more trail) = Ok (desugar_item i :: map (fun p => desugar_item (snd p)) more) [].
+Proof. exact roundtrip_program. Qed.
+Print Assumptions C10_roundtrip_program.
+
+(* The lexer on decimal number literals, beyond the finite tables (Syntax/LexNumber.v): `numlit` =
+   the documented number notation (digits with `_` separators that start and end with a digit, an
+   optional fraction `.digits` — also the forms `.234` and `2.` —, an optional exponent e/E with
+   optional sign), `num_stop rest` = the literal ends there (no digit, `_`, `.` or exponent follows).
+   For literals of any length and ANY Unicode identifier classes in which a digit does not start an
+   identifier: every literal of the grammar is exactly one Number token with that lexeme, and
+   conversely every Number token the tokenizer produces is a literal of the grammar and nothing else
+   was consumed. *)
+Theorem C10_lex_number : forall (xid_start xid_continue : N -> bool),
+  (forall c, is_ascii_digit c = true -> xid_start c = false) ->
+  forall (n : numlit) (rest : str) (d : nat),
+  wf_num n = true -> num_stop rest = true -> based_prefix (pr_num n ++ rest) = false ->
+  scan_single_token xid_start xid_continue d (pr_num n ++ rest) = LOk (Some (TNumber (pr_num n)), rest, d).
+Proof. exact lex_number_complete. Qed.
+Print Assumptions C10_lex_number.
+
+Theorem C10_lex_number_sound : forall (xid_start xid_continue : N -> bool) (d : nat) (cs l r : str) (d' : nat),
+  scan_single_token xid_start xid_continue d cs = LOk (Some (TNumber l), r, d') ->
+  exists n, wf_num n = true /\ l = pr_num n /\ cs = l ++ r /\ d' = d.
+Proof. exact lex_number_sound. Qed.
+Print Assumptions C10_lex_number_sound.
+
+(* Identifiers, for ANY Unicode classes XID_Start / XID_Continue (Syntax/LexIdent.v): a start character
+   that is not one of the punctuation characters tested earlier, followed by any number of continue
+   characters, up to a character that does not continue an identifier (and not a `.` that is not a
+   field access), is one token: the keyword it spells, else an Identifier with that lexeme.
+   Conversely every Identifier token is such a word, it is not a keyword, it ends where no continue
+   character follows, and nothing else was consumed. *)
+Theorem C10_lex_ident : forall (xid_start xid_continue : N -> bool) (c : N) (body rest : str) (d : nat),
+  early c = false -> is_identifier_start xid_start c = true ->
+  forallb (is_identifier_continue xid_continue) body = true ->
+  ident_stop xid_start xid_continue rest = true ->
+  scan_single_token xid_start xid_continue d (c :: body ++ rest) = LOk (Some (word_token (c :: body)), rest, d).
+Proof. exact lex_ident_complete. Qed.
+Print Assumptions C10_lex_ident.
+
+Theorem C10_lex_ident_sound : forall (xid_start xid_continue : N -> bool) (d : nat) (cs l r : str) (d' : nat),
+  scan_single_token xid_start xid_continue d cs = LOk (Some (TIdent l), r, d') ->
+  exists c body, l = c :: body /\ is_identifier_start xid_start c = true
+                 /\ forallb (is_identifier_continue xid_continue) body = true
+                 /\ keyword_of l = None /\ cs = l ++ r
+                 /\ peek_is (is_identifier_continue xid_continue) r = false /\ d' = d.
+Proof. exact lex_ident_sound. Qed.
+Print Assumptions C10_lex_ident_sound.
 
 (* Two well-formed renderings of the same tree (redundant parentheses, `per` vs `/`,
    `to` vs `->`, unary plus, `^-x` vs `^(-x)`) parse identically. *)
@@ -78,20 +162,36 @@ Print Assumptions C10_fuel.
    grammar and the result is the documented tree of it — nothing outside the grammar is accepted or
    reinterpreted. *)
 Theorem C10_sound_core : forall ts ss,
-  core ts = true -> no_separator ts = true -> parse ts = Ok ss [] ->
+  core ts = true -> no_separator ts = true -> simple_start ts = true -> parse ts = Ok ss [] ->
   ts = [] /\ ss = [] \/ exists s, wf_stmt s = true /\ pr_stmt s = ts /\ ss = [desugar_stmt s].
 Proof. exact parse_sound. Qed.
 Print Assumptions C10_sound_core.
 
-(* Together with C10_roundtrip_stmt: acceptance on the core is characterised exactly. *)
+(* Together with C10_roundtrip_stmt: acceptance on the core is characterised exactly
+   (`simple_start`: the statement is an expression, `let name = e` or a procedure call; the
+   definition forms fn / unit / dimension / struct / use / annotated let are parsed by the model
+   and tied by correspondence, their inversion is not proved). *)
 Theorem C10_characterised : forall ts st,
-  core ts = true -> no_separator ts = true ->
+  core ts = true -> no_separator ts = true -> simple_start ts = true ->
   (parse ts = Ok [st] [] <-> exists s, wf_stmt s = true /\ pr_stmt s = ts /\ desugar_stmt s = st).
 Proof. exact parse_characterised. Qed.
 Print Assumptions C10_characterised.
 
+(* Several statements: on token lists without line breaks and trailing commas whose statements
+   (separated by `;`) all start like a statement of the fragment, whatever the parser accepts is the
+   `;`-separated print of well-formed statements (a trailing `;` allowed) and the result is the list
+   of their meanings. *)
+Theorem C10_sound_seq : forall ts ss,
+  core ts = true -> simple_start ts = true -> after_semis ts = true -> parse ts = Ok ss [] ->
+  ts = [] /\ ss = [] \/
+  exists stmts trailing, stmts <> [] /\ Forall (fun s => wf_stmt s = true) stmts
+    /\ ts = pr_semi stmts trailing /\ ss = map desugar_stmt stmts.
+Proof. exact parse_sound_seq. Qed.
+Print Assumptions C10_sound_seq.
+
 (* NOT PROVED (partial): soundness for token lists with newlines (skipped inside argument lists,
-   conditionals and literals), trailing commas and several statements.
+   conditionals and literals), trailing commas, and for the definition forms (fn, unit, dimension, struct,
+   use, annotated / decorated let), for which only the direction C10_roundtrip_def is proved.
    There the correspondence check and the reference recogniser decide. *)
 Definition C10_full : Prop :=
   forall ts ss, parse ts = Ok ss [] ->
@@ -161,6 +261,81 @@ Example C10_ex_statements :
   let s2 := SSProc KAssertEq [id_ 97; SBin TPlus (id_ 98) (num_ 49)] in
   wf_stmt s1 = true /\ wf_stmt s2 = true
   /\ pr_stmt s1 = [TKw KLet; TIdent [120]; TEqual; TNumber [50]; TIdent [109]]%N
-  /\ parse (pr_stmt s1) = Ok [StLet [120]%N (EBin Mul (EScalar [50]%N) (EIdent [109]%N))] []
+  /\ parse (pr_stmt s1) = Ok [StLet (mk_defvar [120]%N None [] (EBin Mul (EScalar [50]%N) (EIdent [109]%N)))] []
   /\ parse (pr_stmt s2) = Ok [StProc KAssertEq [EIdent [97]%N; EBin Add (EIdent [98]%N) (EScalar [49]%N)]] [].
+Proof. vm_compute. repeat split; reflexivity. Qed.
+
+(* definitions:
+     @name("N")
+     @aliases(g: short, h)
+     fn f<D: Dim, E>(x: D, y) -> D^2 = x * z where z = 2 and w: List<E> = v
+   and `unit u: L / T^(-1/2) = 3 m`, `dimension A = B * C = D`, `struct S<T> { a: T, b: Fn[(T) -> Bool] }`,
+   `use a::b` *)
+Example C10_ex_definitions :
+  let D := YIdent [68]%N None in
+  let f := SFFn [SDName [34; 78; 34]%N; SDUrl [34; 34]%N]
+                [102]%N [([68]%N, true); ([69]%N, false)]
+                [([120]%N, Some D); ([121]%N, None)]
+                (Some (YPow D (XNum [50]%N)))
+                (Some (SBin TMultiply (id_ 120) (id_ 122),
+                       [mk_svar [122]%N None (num_ 50);
+                        mk_svar [119]%N (Some (YList (YIdent [69]%N None))) (id_ 118)])) in
+  let u := SFUnit [SDMetric; SDAliases [([103]%N, Some AcShort); ([104]%N, None)]] [117]%N
+                  (Some (YDiv (YIdent [76]%N None) (YPow (YIdent [84]%N None) (XParDiv (XMinus (XNum [49]%N)) (XNum [50]%N)))))
+                  (Some (SIMul (num_ 51) (id_ 109))) in
+  let d := SFDimension [65]%N [YMul (YIdent [66]%N None) (YIdent [67]%N None); D] in
+  let s := SFStruct [83]%N [([84]%N, false)]
+                    [([97]%N, YIdent [84]%N None); ([98]%N, YFn [YIdent [84]%N None] YBool)] in
+  let m := SFUse [97]%N [[98]%N] in
+  wf_def f = true /\ wf_def u = true /\ wf_def d = true /\ wf_def s = true /\ wf_def m = true
+  /\ parse (pr_def f) = Ok [desugar_def f] []
+  /\ desugar_def u = StUnit [117]%N
+       (Some (TAExp (TEDiv (TEIdent [76]%N []) (TEPow (TEIdent [84]%N []) ((-1)%Z, 2%positive)))))
+       (Some (EBin Mul (EScalar [51]%N) (EIdent [109]%N)))
+       [DMetricPrefixes; DAliases [([103]%N, Some AcShort); ([104]%N, None)]]
+  /\ parse (pr_def u) = Ok [desugar_def u] []
+  /\ pr_def d = [TKw KDimension; TIdent [65]; TEqual; TIdent [66]; TMultiply; TIdent [67]; TEqual; TIdent [68]]%N
+  /\ parse (pr_def s) = Ok [desugar_def s] []
+  /\ parse (pr_prog 1 (IDef f) [((false, 1), IDef u); ((true, 0), IStmt (SSExpr (id_ 120))); ((false, 0), IDef m)] 2)
+     = Ok [desugar_def f; desugar_def u; StExpr (EIdent [120]%N); StUse [[97]%N; [98]%N]] [].
+Proof. vm_compute. repeat split; reflexivity. Qed.
+
+(* side conditions: an alias on a function, an example on a unit and a where clause that would be
+   swallowed are outside wf_def / srest, and the model indeed rejects or reads them differently *)
+Example C10_ex_definitions_rejected :
+  let f := SFFn [SDAliases [([103]%N, None)]] [102]%N [] [] None None in
+  let u := SFUnit [SDExample [34; 34]%N None] [117]%N None None in
+  wf_def f = false /\ parse (pr_def f) = Err AliasUsedOnFunction
+  /\ wf_def u = false /\ parse (pr_def u) = Err ExampleUsedOnUnsuitableKind
+  /\ srest [TNewline; TKw KWhere]%N = false
+  /\ wf_ty (YPow (YMul (YIdent [65]%N None) (YIdent [66]%N None)) (XNum [50]%N)) = false.
+Proof. vm_compute. repeat split; reflexivity. Qed.
+
+(* number notation: the documented forms 12_345, .234, 1.234e+15, 1e-9 are literals of the grammar;
+   `1_`, `1._2`, `1e` are not *)
+Example C10_ex_numbers :
+  let n1 := mk_num [49; 50; 95; 51; 52; 53]%N None None in
+  let n2 := mk_num [] (Some [50; 51; 52]%N) None in
+  let n3 := mk_num [49]%N (Some [50; 51; 52]%N) (Some (101, Some 43, [49; 53]))%N in
+  let n4 := mk_num [49]%N None (Some (101, Some 45, [57]))%N in
+  wf_num n1 = true /\ wf_num n2 = true /\ wf_num n3 = true /\ wf_num n4 = true
+  /\ pr_num n3 = [49; 46; 50; 51; 52; 101; 43; 49; 53]%N
+  /\ wf_num (mk_num [49; 95]%N None None) = false
+  /\ wf_num (mk_num [49]%N (Some [95; 50]%N) None) = false
+  /\ wf_num (mk_num [49]%N None (Some (101, None, []))%N) = false
+  /\ num_stop [32; 109]%N = true /\ num_stop [101; 53]%N = false /\ num_stop [46]%N = false.
+Proof. vm_compute. repeat split; reflexivity. Qed.
+
+(* identifiers: with ASCII letters as start and letters / digits as continue characters, `xy1` followed by
+   a blank is an Identifier, `let` is the keyword, a digit or `(` cannot start a word, and `x.` followed by
+   a non-identifier is not a legal stop *)
+Example C10_ex_identifiers :
+  let st := fun c : N => in_range 97 122 c in
+  let co := fun c : N => in_range 97 122 c || in_range 48 57 c in
+  early 120 = false /\ early 49 = true /\ early 40 = true
+  /\ is_identifier_start st 120 = true
+  /\ ident_stop st co [32]%N = true /\ ident_stop st co [46; 49]%N = false /\ ident_stop st co [46; 97]%N = true
+  /\ word_token [120; 121; 49]%N = TIdent [120; 121; 49]%N
+  /\ word_token [108; 101; 116]%N = TKw KLet
+  /\ scan_single_token st co 0 [120; 121; 49; 32; 43]%N = LOk (Some (TIdent [120; 121; 49]%N), [32; 43]%N, 0%nat).
 Proof. vm_compute. repeat split; reflexivity. Qed.
